@@ -43,7 +43,7 @@ def run(pid, tier, seed, replay):
     ctx = Ctx(pid, tier, seed)
     ctx.trusted.append("modelled, not verified: NATS delivery, the commit queue implementation and Go scheduling between the message loop and the commit loop (the driver lets the partition settle after every step, so each step's effects are observed complete); followers are played by the driver through real ReplicationRequest messages, the follower side of replication is C02's; encryption failure nacks are covered at the codec level (C17), not here")
     ctx.coq_cone("Properties/C04.v")
-    env = {"VERIF_N": 4 if tier == "quick" else 60}
+    env = {"VERIF_N": 7 if tier == "quick" else 60}
     lines = ctx.go_driver("server", ["server/srv_test.go", "server/partdrv_test.go", "server/c04_test.go"], "^TestVerifC04$", env=env, timeout=6000)
     cases = [l for l in lines if l.get("k") == "ack"]
     dist = {}
